@@ -100,10 +100,9 @@ CLAIMS.update({
             'partial_fit keep the table invariant "bucket (k, h) lists the stored rows whose hash under plane k is h" '
             '(partial_fit: same planes, offset = rows stored before the call; law where.hashes.vstack proved in Lean); '
             '_predict_contexts answers row j from exactly the de-duplicated collision set with a private, freshly seeded '
-            'policy copy, NaN / the configured distribution when it is empty. NOT proved: the contracts of _initialize '
-            '(one generator draw per table, tables emptied) and _fit_operation (joblib maps over chunks and over '
-            'np.unique(hashes) into nested dictionaries) are ASSUMED - their loops are outside PyVC\'s reach - and '
-            'exercised only by the bounded leg, which recomputes the collision sets from the bandit\'s own planes for '
+            'policy copy, NaN / the configured distribution when it is empty. _initialize draws planes of the right shape and empties the tables. NOT proved: the contract of '
+            '_fit_operation (joblib maps over chunks and over np.unique(hashes) into nested dictionaries) is ASSUMED - its '
+            'loops are outside PyVC\'s reach - and exercised only by the bounded leg, which recomputes the collision sets from the bandit\'s own planes for '
             'stored rows, positive multiples and fresh queries (n_jobs 1 and 2, fit + partial_fit). Consequences in the '
             'statement (a positive multiple of a stored row collides with it) are checked by the bounded leg only.',
             '12.2, 12.6, 7 C11'),
